@@ -195,6 +195,11 @@ func chainTx(c *core.Case) {
 		if r.Intn(2) == 0 {
 			signer = types.NewChainIDSigner(big.NewInt(1 + int64(r.Intn(3000))))
 		}
+		if r.Intn(2) == 0 {
+			// the unsigned object was looked at before signing: what it memoised must not survive into the signed one
+			_, _ = stx.Hash(), stx.Size()
+			run.Count("tx_signed_after_hash_and_size_were_read", 1)
+		}
 		signed, err := types.SignTx(signer, stx, key(r.Intn(4)))
 		if err != nil {
 			run.Inconclusive("SignTx failed: " + err.Error())
